@@ -623,10 +623,8 @@ def blob_to_xml(obj: model.Blob,
     :return: Serialized :class:`~lxml.etree._Element` object
     """
     et_blob = abstract_classes_to_xml(tag, obj)
-    et_value = etree.Element(NS_AAS + "value")
     if obj.value is not None:
-        et_value.text = base64.b64encode(obj.value).decode()
-    et_blob.append(et_value)
+        et_blob.append(_generate_element(NS_AAS + "value", text=base64.b64encode(obj.value).decode()))
     et_blob.append(_generate_element(NS_AAS + "contentType", text=obj.content_type))
     return et_blob
 
